@@ -242,6 +242,6 @@ func c01Valid(ctx *core.Ctx) {
 			mode = "cli"
 		}
 		ctx.Count("valid-random")
-		ctx.Add("c01load", c01Args{Req: *req, Mode: mode, Shape: "validN"})
+		ctx.Add("c01load", c01Args{Req: *req, Mode: mode, Delivery: c01DrawDelivery(ctx), Shape: "validN"})
 	}
 }
